@@ -16,7 +16,7 @@ INFIX = ["*", "|", "^", "&", ">>", "@", "+", "-", "/"]
 METH2 = ["gp", "ip", "sp", "lc", "rc", "op", "rp", "sw", "proj", "cp", "acp", "add", "sub", "div"]
 UNSYM = ["~", "-"]
 METH1 = ["reverse", "involute", "conjugate", "inv", "normsq", "dual", "undual", "hodge", "unhodge", "polarity", "unpolarity",
-         "norm", "normalized"]
+         "norm", "normalized", "dual:hodge", "undual:hodge", "dual:polarity", "undual:polarity", "undual:hodge", "undual:polarity"]
 NUMFORMS = ["t+n", "n+t", "t-n", "n-t", "t*n", "n*t", "t/n"]
 OTHERFORMS = ["n|t", "n^t", "n/t", "t**0.5", "frac+t", "t*frac", "complex*t", "n>>t", "t.sqrt()", "t.outerexp()"]
 RULE = ("case = (algebra config d<=3 quick (d=4 sampled in thorough), a generated expression program over 1-3 arguments "
@@ -71,7 +71,7 @@ def _expr(draw, depth, nargs, d, ctx):
         gs = sorted(draw(st.sets(st.integers(0, d), min_size=0, max_size=d + 1)))
         return ["grade", sub(), gs, draw(st.sampled_from(["varargs", "tuple"]))]
     if k == "num":
-        n = draw(st.sampled_from([2, 3, -1, 5, 0.5, -2.0, 1.25, 0, 1]))
+        n = draw(st.sampled_from([2, 3, -1, 5, 0.5, -2.0, 1.25, 0, 1, 0.123456789, 1 / 6, -2.718281828459045]))
         return ["num", draw(st.sampled_from(NUMFORMS)), sub(), n]
     if k == "pow":
         return ["pow", sub(), draw(st.sampled_from([-3, -2, -1, 0, 1, 2, 3, 2, -1]))]
@@ -181,6 +181,10 @@ def render(tree, gens):
     if k == "un":
         return f"({tree[1]}{r(tree[2])})"
     if k == "meth1":
+        if ":" in tree[1]:
+            m_, kind_ = tree[1].split(":")
+            # explicit duality kind, as keyword (dual) or positionally (undual)
+            return f"{r(tree[2])}.{m_}(kind='{kind_}')" if m_ == "dual" else f"{r(tree[2])}.{m_}('{kind_}')"
         return f"{r(tree[2])}.{tree[1]}()"
     if k == "grade":
         gs = tree[2]
